@@ -72,49 +72,59 @@ def setI (l : List Int) (i : Nat) (v : Int) : List Int := l.set i v
 def runoutPlumb (count : Option Int) (i : Option Nat) : Option Int × Option Nat :=
   (count, i)
 
-/-- `_begin_betting` (4157-4259) : opener selection; `none` = `.index(None)`/assert failure -/
+/-- the layout entry seat `i` posts: heads-up the two entries are posted by the opposite seats
+    (`get_effective_blind_or_straddle`, and `_begin_betting` since the F10 repair) -/
+def blindEntry (i : Nat) : Int :=
+  if cfg.n == 2 then getI cfg.blinds (if i == 0 then 1 else 0) else getI cfg.blinds i
+
+/-- `bets[i] * sign(blinds_or_straddles[j])`: what seat `i` has in front of him, counted only when
+    it is a genuine blind or straddle (a late-seated player's post has a negative entry) -/
+def positionKey (s : State) (i : Nat) : Int := getI s.bets i * sign (blindEntry cfg i)
+
+/-- `min(l, key=…)` / `max(l, key=…)` as python evaluates them: keep the first element, replace it
+    whenever a later one is strictly `better`; `none` on the empty list -/
+def pickBy (better : α → α → Bool) (l : List α) : Option α :=
+  l.foldl (fun acc c => match acc with
+    | none => some c
+    | some m => if better c m then some c else some m) none
+
+/-- `card_key(rank_order, a) < card_key(rank_order, b)`: rank position first, then suit -/
+def cardKeyLt (ro : List Rank) (a b : Card) : Bool :=
+  ro.idxOf a.rank < ro.idxOf b.rank || (ro.idxOf a.rank == ro.idxOf b.rank && a.suit < b.suit)
+
+/-- `min_or_none(cards, key=card_key)` (`low`) / `max_or_none(cards, key=card_key)`: a rank outside
+    the order makes `rank_order.index` raise ValueError, which `*_or_none` turns into None -/
+def pickCard (ro : List Rank) (low : Bool) (cs : List Card) : Option Card :=
+  if cs.any (fun c => !ro.contains c.rank) then none
+  else pickBy (if low then cardKeyLt ro else fun a b => cardKeyLt ro b a) cs
+
+/-- `max(player_indices, key=lambda i: (key i, i))` -/
+def argmaxKey (key : Nat → Int) (l : List Nat) : Option (Int × Nat) :=
+  l.foldl (fun (best : Option (Int × Nat)) i =>
+    match best with
+    | none => some (key i, i)
+    | some (bk, bi) => if key i > bk || (key i == bk && i > bi) then some (key i, i) else some (bk, bi)) none
+
+/-- `_begin_betting` (4157-4259) : opener selection; an error = `.index(None)`/assert failure -/
 def openerOf (s : State) : Except Err Nat :=
   match s.street cfg with
   | none => .error .assertionError
   | some st =>
     match st.opening with
     | .position =>
-      -- max over i of (bets[i] * sign(blinds[i]), i)
-      let best := (playerIndices cfg).foldl (fun (best : Option (Int × Nat)) i =>
-        let k := getI s.bets i * sign (getI cfg.blinds i)
-        match best with
-        | none => some (k, i)
-        | some (bk, bi) => if k > bk || (k == bk && i > bi) then some (k, i) else some (bk, bi)) none
-      match best with
+      -- max over i of (bets[i] * sign(blinds[j]), i), `j` the layout entry seat `i` posts
+      match argmaxKey (positionKey cfg s) (playerIndices cfg) with
       | none => .error .valueError
       | some (_, i) => .ok ((i + 1) % cfg.n)
     | .lowCard =>
       -- card_key with _HighHandOpeningLookup.rank_order (STANDARD), then suit
-      let key (c : Card) : Nat × Nat := ((RankOrder.standard.idxOf c.rank), c.suit)
-      let lt (a b : Nat × Nat) : Bool := a.1 < b.1 || (a.1 == b.1 && a.2 < b.2)
-      -- `min_or_none`: a rank outside the order makes `rank_order.index` raise ValueError,
-      -- which `min_or_none` swallows, returning None
-      let minCard (cs : List Card) : Option Card :=
-        if cs.any (fun c => !RankOrder.standard.contains c.rank) then none else
-        cs.foldl (fun acc c => match acc with
-        | none => some c
-        | some m => if lt (key c) (key m) then some c else some m) none
-      let ups := (playerIndices cfg).map fun i => minCard (s.upCards i)
-      let best := minCard (ups.filterMap id)
-      match indexOf? ups best with
+      let ups := (playerIndices cfg).map fun i => pickCard RankOrder.standard true (s.upCards i)
+      match indexOf? ups (pickCard RankOrder.standard true (ups.filterMap id)) with
       | some i => .ok i
       | none => .error .valueError
     | .highCard =>
-      let key (c : Card) : Nat × Nat := ((RankOrder.regular.idxOf c.rank), c.suit)
-      let lt (a b : Nat × Nat) : Bool := a.1 < b.1 || (a.1 == b.1 && a.2 < b.2)
-      let maxCard (cs : List Card) : Option Card :=
-        if cs.any (fun c => !RankOrder.regular.contains c.rank) then none else
-        cs.foldl (fun acc c => match acc with
-        | none => some c
-        | some m => if lt (key m) (key c) then some c else some m) none
-      let ups := (playerIndices cfg).map fun i => maxCard (s.upCards i)
-      let best := maxCard (ups.filterMap id)
-      match indexOf? ups best with
+      let ups := (playerIndices cfg).map fun i => pickCard RankOrder.regular false (s.upCards i)
+      match indexOf? ups (pickCard RankOrder.regular false (ups.filterMap id)) with
       | some i => .ok i
       | none => .error .valueError
     | .lowHand =>
@@ -122,9 +132,7 @@ def openerOf (s : State) : Except Err Nat :=
           | .ok e => .ok e | .error e => .error (evalErr e)) (playerIndices cfg) with
       | .error e => .error e
       | .ok entries =>
-        let best := (entries.filterMap id).foldl (fun acc e => match acc with
-          | none => some e | some m => if e < m then some e else some m) none
-        match indexOf? entries best with
+        match indexOf? entries (pickBy (fun e m => decide (e < m)) (entries.filterMap id)) with
         | some i => .ok i
         | none => .error .valueError
     | .highHand =>
@@ -132,9 +140,7 @@ def openerOf (s : State) : Except Err Nat :=
           | .ok e => .ok e | .error e => .error (evalErr e)) (playerIndices cfg) with
       | .error e => .error e
       | .ok entries =>
-        let best := (entries.filterMap id).foldl (fun acc e => match acc with
-          | none => some e | some m => if e > m then some e else some m) none
-        match indexOf? entries best with
+        match indexOf? entries (pickBy (fun e m => decide (e > m)) (entries.filterMap id)) with
         | some i => .ok i
         | none => .error .valueError
 
